@@ -192,7 +192,7 @@ func runC14(r *simrt.Run) {
 	w.Net.Gossip = false
 	wl := nomsim.NewWorkload(w, mode)
 	wl.MaxOps = 1 + t.Choose(4)
-	scenario := t.Choose(4)
+	scenario := t.Choose(5)
 	switch scenario {
 	case 0:
 		c14Sequential(r, w, wl)
@@ -202,8 +202,10 @@ func runC14(r *simrt.Run) {
 		c14PillarVsSync(r, w, wl)
 	case 3:
 		c14ReadersVsReorg(r, w, wl)
+	case 4:
+		c14PillarVsGossip(r, w, wl)
 	}
-	r.Sample["scenario"] = []string{"sequential-model", "readers-vs-inserter", "pillar-vs-sync", "readers-vs-reorg"}[scenario]
+	r.Sample["scenario"] = []string{"sequential-model", "readers-vs-inserter", "pillar-vs-sync", "readers-vs-reorg", "pillar-vs-gossip"}[scenario]
 }
 
 // ---- W/O 1: sequential operations against the model, two nodes in opposite orders ----
@@ -940,6 +942,122 @@ func (l *c14Listener) InsertMomentum(d *nom.DetailedMomentum) {
 func (l *c14Listener) DeleteMomentum(d *nom.DetailedMomentum) {
 	l.touch()
 	l.deleted = append(l.deleted, d.Momentum.Height)
+}
+
+// ---- W/O 3d: the producing pillar against gossip that replaces what it is about to confirm ----
+
+// c14PillarVsGossip: node A pools block X of an account; a second node B, on the same chain, pools a
+// competitor X' for the same height that pays more plasma, and a block Y on top of it. While A's pillar
+// produces (generate the momentum from the pool, release the insert lock, take it again, insert), X' and Y
+// arrive on A through the bridge. Whatever the interleaving: A's own momentum is one a fresh node accepts,
+// and afterwards A's pool is one chain on the confirmed head.
+func c14PillarVsGossip(r *simrt.Run, w *nomsim.World, wl *nomsim.Workload) {
+	t := r.T
+	a := w.AddNode("A", nomsim.MockPillars(), false)
+	b := w.AddNode("B", nil, false)
+	for i := 0; i < 2+t.Choose(4); i++ {
+		wl.Ops(a)
+		w.StepSlot()
+	}
+	if idx, err := b.Bridge.InsertChain(a.Batch(2, a.Height())); err != nil || idx != 0 {
+		r.Fail("honest-batch-refused", "setup", "idx=%d err=%v", idx, err)
+	}
+	races := 0
+	rounds := 2 + t.Choose(4)
+	for i := 0; i < rounds; i++ {
+		t.Span(func() {
+			// a slot in which A's pillar is elected
+			var ts time.Time
+			found := false
+			for tries := 0; tries < 30 && !found; tries++ {
+				s := w.Slot
+				w.Slot++
+				w.AdvanceTo(s)
+				ts = w.SlotTime(s)
+				if exp, err := a.Cons.GetMomentumProducer(ts); err == nil && a.Hosts(*exp) != nil {
+					found = true
+				}
+			}
+			if !found {
+				return
+			}
+			u := w.Users[t.Choose(5)]
+			o := w.Users[5+t.Choose(5)]
+			fr := a.Chain.GetFrontierAccountStore(u.Address).Identifier()
+			if b.Chain.GetFrontierAccountStore(u.Address).Identifier() != fr {
+				return
+			}
+			mk := func(n *simnode.Node, prev types.HashHeight, amount int64, fused uint64) *nom.AccountBlock {
+				tx, err := n.Sup.GenerateFromTemplate(&nom.AccountBlock{BlockType: nom.BlockTypeUserSend, Address: u.Address, ToAddress: o.Address, TokenStandard: types.ZnnTokenStandard,
+					Amount: big.NewInt(amount), PreviousHash: prev.Hash, Height: prev.Height + 1, FusedPlasma: fused}, u.Signer)
+				if err != nil {
+					return nil
+				}
+				return tx.Block
+			}
+			x := mk(a, fr, int64(1+t.Choose(100)), 21000)
+			if x == nil || a.Bridge.AddAccountBlocks([]*nom.AccountBlock{x}) != nil {
+				return
+			}
+			x2 := mk(b, fr, int64(200+t.Choose(100)), 21000+uint64(1+t.Choose(2000)))
+			if x2 == nil || b.Bridge.AddAccountBlocks([]*nom.AccountBlock{x2}) != nil {
+				return
+			}
+			gossip := []*nom.AccountBlock{x2}
+			if t.Bool() {
+				if y := mk(b, x2.Identifier(), int64(1+t.Choose(100)), 21000); y != nil && b.Bridge.AddAccountBlocks([]*nom.AccountBlock{y}) == nil {
+					gossip = append(gossip, y)
+				}
+			}
+			sc := sched.New(r)
+			switch t.Choose(3) {
+			case 1:
+				sc.Filter = func(site string) bool { return strings.HasPrefix(site, "chain/chain.go") }
+			case 2:
+				sc.Sticky = 85
+			}
+			h0, own0 := a.Height(), a.OwnMomentums
+			sc.Go("pillar", func() { a.ProduceAt(ts) })
+			sc.Go("gossip", func() { a.Bridge.AddAccountBlocks(gossip) })
+			for _, pn := range sc.Run() {
+				r.Fail("task-panic", "pillar-vs-gossip", "%v", pn)
+			}
+			if sc.Deadlock != "" {
+				r.Fail("deadlock", "pillar-vs-gossip", "%s", sc.Deadlock)
+			}
+			races++
+			r.Probes["schedule-steps"] += sc.Steps
+			r.Logf("pillar/gossip race: A %d -> %d, own momentums +%d, %d gossiped blocks, %d steps", h0, a.Height(), a.OwnMomentums-own0, len(gossip), sc.Steps)
+			for _, st := range sc.Trace {
+				r.Logf("sched %s", st)
+			}
+			poolOnHead(r, a, []types.Address{u.Address, o.Address}, "after a pillar/gossip race")
+			// B follows A's chain (its own pool is forced over where it conflicts) and must accept it
+			if a.Height() > b.Height() {
+				if idx, err := b.Bridge.InsertChain(a.Batch(b.Height()+1, a.Height())); err != nil || idx != 0 {
+					r.Fail("own-momentum-refused-by-others", "pillar-vs-gossip", "node B refuses the momentum A produced during the race: idx=%d err=%v", idx, err)
+				}
+			}
+			// and A keeps producing: the next slot's momentum is built from a pool that stands on the ledger
+			w.StepSlot()
+			if a.LastOwnMomentumErr != nil {
+				r.Fail("producer-wedged", "pillar-vs-gossip", "after the race A cannot insert its next momentum: %v", a.LastOwnMomentumErr)
+			}
+			if a.Height() > b.Height() {
+				if idx, err := b.Bridge.InsertChain(a.Batch(b.Height()+1, a.Height())); err != nil || idx != 0 {
+					r.Fail("own-momentum-refused-by-others", "after-race", "node B refuses A's next momentum: idx=%d err=%v", idx, err)
+				}
+			}
+			poolOnHead(r, a, []types.Address{u.Address, o.Address}, "one slot after a pillar/gossip race")
+		})
+	}
+	if a.Height() == b.Height() {
+		compareNodes(r, "same-momentums-different-state", a, b, nil)
+	}
+	r.Probes["pillar-vs-gossip-races"] += races
+	r.NonTrivial = races >= 1
+	r.Finger = fmt.Sprintf("pvg-%s", r.Digest())
+	r.Sample["races"] = races
 }
 
 func sortAddrs(a []types.Address) {
